@@ -40,7 +40,7 @@ func init() {
 		NotDecided: "the counting argument itself (that active plus archive hold at least N recent handshakes given these conditions), the 32-bit collision rate.",
 	})
 	register(&PropDef{ID: "C08", Level: "other", Run: runC08,
-		Explanation: "Server-salt marking structure: (SELECT) for the SDK's cipher specs the marking generator is selected exactly when saltSize - markLen >= minEntropy, i.e. saltSize >= 20; (CONSTRUCT) cipher entries are built only by MakeCipherEntry and their " +
+		Explanation: "Server-salt marking structure: (SELECT) for the SDK's cipher specs the marking generator is selected exactly when saltSize - markLen >= minEntropy, i.e. saltSize >= 20; (KEYED) the marking generator is keyed by a constructor parameter that every construction site fills with the secret its encryption key was derived from; (CONSTRUCT) cipher entries are built only by MakeCipherEntry and their " +
 			"ID/key/generator never change; (INSTALL) every success return of the authenticator has installed the matched entry's generator on the response writer the returned connection writes through; (GATE) success is cut by IsServerSalt == false, the test is " +
 			"unconditional (not dependent on the replay cache) and precedes the replay history; (AGREE) GetSalt and IsServerSalt of the marking generator (found by role) go through one shared split helper and one shared tag helper, compare/copy exactly the first markLen bytes of the tag against the mark part, compute tags on per-call hash state, and salt randomness comes from crypto/rand.",
 		NotDecided: "pairwise salt uniqueness, HMAC unforgeability.",
